@@ -25,7 +25,7 @@ TRUSTED_BASE = [
 # ---------------------------------------------------------------------------------------------
 # property table: theorem modules, generated tables, correspondence runs (level, group)
 PROPS = {
-    "C01": dict(modules=["Emu8086.Props.C01"], runs=[("l1", "arith"), ("l2", "arith")], gen=["Arch"],
+    "C01": dict(modules=["Emu8086.Props.C01", "Emu8086.Props.C01Exec"], runs=[("l1", "arith"), ("l2", "arith")], gen=["Arch"],
                 rule="L1: every byte operand pair x 4+ flag words for ADD/ADC/SUB/SBB/CMP, every byte value x flag words for INC/DEC/NEG, "
                      "word operands on the boundary lattice^2 + seeded random pairs; non-trivial = result or flag word differs from the input; "
                      "distinct = distinct request text (hash-sharded, de-duplicated in the driver)"),
@@ -284,7 +284,7 @@ def tcorr_run(level, group, tier, seed, nshards=NSHARDS, timeout=7200, extra_env
         if level in ("l3", "l4"):
             kind = "asm" if level == "l3" else "cli"
             cmd = (f"VERIF_L3_KIND={kind} VERIF_REPO='{REPO}' VERIF_CLI='{CLI}' '{sys.executable}' '{gen}' {group} {tier} {seed} {i} {nshards} "
-                   f"| VERIF_CLI='{CLI}' '{HARNESS}' replay | '{DRIVER}'")
+                   f"| VERIF_CLI='{CLI}' VERIF_SCRATCH='{os.path.join(BUILD, 'scratch')}' '{HARNESS}' replay | '{DRIVER}'")
         else:
             cmd = f"'{HARNESS}' {level} {group} {tier} {seed} {i} {nshards} | '{DRIVER}'"
         env = dict(os.environ)
